@@ -1366,3 +1366,20 @@ Proof.
   - cbn [bind]. unfold layer, config_files. cbn [assoc bind read foldR]. apply update_from_dict_nil.
   - cbn. auto.
 Qed.
+
+(* ================================================================================================= *)
+(* Part 9: assignment  config[sec][key] = v  (histories).  Reading back is a function of the current table only
+   ([sget] has no other argument), so the theorems of Part 5 hold after every history; an assignment changes exactly
+   the option assigned. *)
+Theorem assign_current : forall cfg sec key v cfg',
+  assign cfg sec key v = Ok cfg' ->
+  (exists o, opt_at cfg sec key = Some o /\ opt_at cfg' sec key = Some (set_value o v)) /\
+  (forall s' k', s' <> sec \/ k' <> key -> opt_at cfg' s' k' = opt_at cfg s' k') /\
+  shape cfg' = shape cfg.
+Proof.
+  intros cfg sec key v cfg' H. unfold assign in H. destruct (opt_at cfg sec key) as [o|] eqn:K; [|discriminate].
+  inversion H; subst cfg'. split; [|split].
+  - exists o. split; [reflexivity|]. eapply opt_at_set_same. exact K.
+  - intros s' k' N. apply opt_at_set_other. exact N.
+  - eapply set_at_shape; [exact K|reflexivity].
+Qed.
